@@ -10,6 +10,7 @@ import Pdlv.Py
 import Pdlv.Cxx
 import Pdlv.PySpec
 import Pdlv.Java
+import Pdlv.JavaSpec
 import Pdlv.Analyzer
 import Pdlv.ToJson
 import Pdlv.Syntax
@@ -253,6 +254,15 @@ def handle (st : State) (req : Json) : Except String (State × Json) := do
           | .ok (cid, cv) => pure (Json.mkObj [("r", "ok"), ("type", Json.str cid), ("value", jsonOfValue cv), ("wf", Json.bool (PySpec.wfNode t))])
           | .err e => pure (Json.mkObj [("r", "err"), ("e", Json.str (decErrName e)), ("wf", Json.bool (PySpec.wfNode t))])
           | .panic h => pure (Json.mkObj [("r", "panic"), ("h", Json.str (hazardName h))])
+        | _, _ => pure (Json.mkObj [("r", "none")])
+      | "javaspec" =>
+        -- the model of `Root.fromBytes(bytes)` of the Java back end with its first-fitting-child dispatch
+        match hexToBytes (← J.str c "hex").toList, JavaSpec.tree f ty with
+        | some bs, some t =>
+          match JavaSpec.parseAll cfg t bs with
+          | .ok (cid, cv) => pure (Json.mkObj [("r", "ok"), ("type", Json.str cid), ("value", jsonOfValue cv), ("wf", Json.bool (JavaSpec.wfNode t))])
+          | .err e => pure (Json.mkObj [("r", "err"), ("e", Json.str (decErrName e)), ("wf", Json.bool (JavaSpec.wfNode t))])
+          | .panic h => pure (Json.mkObj [("r", "panic"), ("h", Json.str (hazardName h)), ("wf", Json.bool (JavaSpec.wfNode t))])
         | _, _ => pure (Json.mkObj [("r", "none")])
       | "table" =>
         match f.lookup ty, Schema.build f with
